@@ -124,4 +124,40 @@ theorem items_set_new (items : Items) (k : String) (v : Param) (h : items.get? k
       have : Items.get? rest k = none := by simpa [Items.get?] using h
       simp [Items.set, hk, ih this]
 
+/-- Completeness of the loop with respect to fuel: every specified outcome is what the loop returns as soon as
+    the recursion budget reaches the length of the inheritance path (so `unsupported` from the budget only ever
+    means the path is longer than the budget — the Python loop has no budget and would simply keep going). -/
+theorem decodes_fuel (d : Definition) (cur : Container) (p : Pkt) (r : ParseResult) (h : Decodes d cur p r) :
+    ∃ n, ∀ fuel, n ≤ fuel → descend d fuel cur p = r := by
+  induction h with
+  | entriesFail a =>
+    refine ⟨1, fun fuel hf => ?_⟩
+    obtain ⟨k, rfl⟩ : ∃ k, fuel = k + 1 := ⟨fuel - 1, by omega⟩
+    simp [descend, a]
+  | criteriaFail a b =>
+    refine ⟨1, fun fuel hf => ?_⟩
+    obtain ⟨k, rfl⟩ : ∃ k, fuel = k + 1 := ⟨fuel - 1, by omega⟩
+    simp [descend, a, b]
+  | concreteStop a b c =>
+    refine ⟨1, fun fuel hf => ?_⟩
+    obtain ⟨k, rfl⟩ : ∃ k, fuel = k + 1 := ⟨fuel - 1, by omega⟩
+    simp [descend, a, b, c]
+  | abstractDeadEnd a b c =>
+    refine ⟨1, fun fuel hf => ?_⟩
+    obtain ⟨k, rfl⟩ : ∃ k, fuel = k + 1 := ⟨fuel - 1, by omega⟩
+    simp [descend, a, b, c]
+  | ambiguous a b =>
+    refine ⟨1, fun fuel hf => ?_⟩
+    obtain ⟨k, rfl⟩ : ∃ k, fuel = k + 1 := ⟨fuel - 1, by omega⟩
+    simp [descend, a, b]
+  | danglingChild a b c =>
+    refine ⟨1, fun fuel hf => ?_⟩
+    obtain ⟨k, rfl⟩ : ∃ k, fuel = k + 1 := ⟨fuel - 1, by omega⟩
+    simp [descend, a, b, c]
+  | step a b c _ ih =>
+    obtain ⟨n, hn⟩ := ih
+    refine ⟨n + 1, fun fuel hf => ?_⟩
+    obtain ⟨k, rfl⟩ : ∃ k, fuel = k + 1 := ⟨fuel - 1, by omega⟩
+    simp [descend, a, b, c, hn k (by omega)]
+
 end Spp.C05
